@@ -12,6 +12,13 @@ Models: rings of length k = 2,3,4 (C_i: c_i -> c_{i+1 mod k}) in every reversibi
   cycle), direction max or min, exchanges written either way, optional doubled stoichiometry of a ring reaction, optional
   ring capacity 10, optional small global bound (big-M adequacy), plus seeded random networks (<= 6 internal reactions).
 
+Asymmetric magnitudes: ring reactions with (-3U, U) and (-U, 3U); route models (route_model) in which the largest |bound|
+is a lower bound (mirrored: an upper bound) that the best cycle-free distribution needs — EX_A and v1 written against the
+flow with (-3000, 1000), sinks capped at 1000, an unrelated 2-cycle: cycle-free optimum 2000 — so that add_loopless' big-M
+must be the largest |bound| on either side.
+Fixed, seed-independent part: fixed_small_specs() (witnesses of the open class add_loopless:optimum-small-bounds; every
+failure carries "witness" = "<spec id>:<objective>:<direction>", list in KNOWN_C17.json) and route_specs().
+
 loopless_solution(model, fluxes=s) for start vectors s obtained from the same model: None (optimize inside), the
 optimize() vector, a pFBA vector, FVA vertices at fraction 1 (optimal, usually with a spinning loop), and — the quantifier
 says "any starting flux vector obtained from the same model" — feasible sub-optimal ones (optimum of another objective,
@@ -594,7 +601,7 @@ def run(tier: str, seed: int) -> dict:
     U.silence()
     cases = build_cases(tier, seed)
     t_gen = time.time() - t0
-    deadline = (80 if tier == "quick" else 840) - t_gen
+    deadline = (55 if tier == "quick" else 840) - t_gen
     results = U.run_pool(run_case, cases, deadline=max(10, deadline), chunksize=4)
     n_models = len({U.model_sig(c["model"]) for c in cases})
     rule = ("ring models (length 2-4, every reversibility pattern F/R/B per ring reaction; on the path / detached / hanging "
